@@ -85,6 +85,9 @@ func runC14(c0 *h.Ctx) {
 
 func runC14Part(c *h.Ctx, part int) {
 	c14Field(c, part)
+	if part == 0 {
+		c14SeedInLargerBuffer(c)
+	}
 	L := ref.EdL()
 	c14PatternedReductions(c, part, L)
 	B := ref.EdBase()
